@@ -25,9 +25,12 @@ IMPORTS = mh.IMPORTS
 KINDS = ["ok", "fail0", "failk", "done", "missing", "badbuild", "noadapter", "nodir"]
 
 
-def spec_of(i, kind, rng):
+def spec_of(i, kind, rng, style="plain"):
     N = rng.randint(2, 3)
     kw = dict(N=N, retries=rng.randint(0, 2), exe="exe0")
+    if style == "template":
+        # one executor whose executable contains a placeholder: every suite (here: every run) starts another program
+        kw.update(exe="exeT", exe_file="%(suite)s-vm", exe_key="exeT:B%d" % i)
     if kind == "fail0":
         kw.update(script=[rng.choice(["exit", "unp", "inv", "to"])] * 12)
     elif kind == "failk":
@@ -35,6 +38,11 @@ def spec_of(i, kind, rng):
         kw.update(script=["ok"] * k + [rng.choice(["exit", "unp"])] * 6, mode="inv")
     elif kind == "missing":
         kw.update(exe="exeM", exe_path="/missing", exe_file="exe0", script=["127"] * 12)   # same file name as the working one
+        if style == "template":
+            kw.update(exe="exeT", exe_path="/x", exe_file="%(suite)s-vm", exe_key="exeT:B%d" % i)   # this suite's program is missing
+        elif style == "args":
+            # two executors whose `executable` differs in an embedded argument only: ONE missing program
+            kw.update(exe="exeM%d" % (i % 2), exe_file="vm.sh -%s" % "ab"[i % 2], exe_key="missing-vm.sh")
     elif kind == "nodir":
         # the suite's location does not exist: starting the process raises ENOENT although the executable (exe0, the one
         # the working runs use) is there
@@ -82,7 +90,9 @@ def in_process_part(chk, exprs):
     for ai, kinds in enumerate(assignments(chk)):
         d = session.scratch_dir()
         try:
-            specs = [spec_of(i, k, rng) for i, k in enumerate(kinds)]
+            style = ["plain", "plain", "plain", "template", "plain", "args"][ai % 6]
+            specs = [spec_of(i, k, rng, style) for i, k in enumerate(kinds)]
+            chk.count("executable_style_" + style)
             faulty = rng.random() < 0.15
             argv = ["-f"] if faulty else []
             failing = ["make bad"]
